@@ -97,6 +97,21 @@ extern void mpt_graph_init(MPT_STRUCT(graph) *gr, const MPT_STRUCT(graph) *from)
 }
 
 
+/* replace content by a copy of the template; the target is kept when a string can not be duplicated */
+static int assignGraph(MPT_STRUCT(graph) *to, const MPT_STRUCT(graph) *from)
+{
+	MPT_STRUCT(graph) tmp;
+	
+	mpt_graph_init(&tmp, from);
+	if (from && ((from->_axes && !tmp._axes) || (from->_worlds && !tmp._worlds))) {
+		mpt_graph_fini(&tmp);
+		return MPT_ERROR(BadOperation);
+	}
+	mpt_graph_fini(to);
+	*to = tmp;
+	return 0;
+}
+
 /*!
  * \ingroup mptPlot
  * \brief set graph properties
@@ -125,8 +140,9 @@ extern int mpt_graph_set(MPT_STRUCT(graph) *gr, const char *name, MPT_INTERFACE(
 			if (len && from == gr) {
 				return 0;
 			}
-			mpt_graph_fini(gr);
-			mpt_graph_init(gr, len ? from : 0);
+			if ((type = assignGraph(gr, len ? from : 0)) < 0) {
+				return type;
+			}
 			return 0;
 		}
 		if ((type = mpt_color_typeid()) > 0
@@ -151,8 +167,9 @@ extern int mpt_graph_set(MPT_STRUCT(graph) *gr, const char *name, MPT_INTERFACE(
 			if (len && from == gr) {
 				return 0;
 			}
-			mpt_graph_fini(gr);
-			mpt_graph_init(gr, from);
+			if ((type = assignGraph(gr, from)) < 0) {
+				return type;
+			}
 			return len <= 0 ? len : 1;
 		}
 		return MPT_ERROR(BadType);
